@@ -1095,7 +1095,7 @@ func c18VaultFlow(t *testing.T, tr *Trace, rng *Rng, a *c18App) {
 	for sq := -2; sq < seqs; sq++ {
 		ctx, _ := base.CacheContext()
 		mode := rng.Intn(10) // 0-2: opened while the fee was zero, fee switched on later; 3-5: flag 0 with a running fee; else: ordinary
-		corpus := sq < 0     // -2: WITNESS of defect D36 (vault deposited into while the fee is zero); -1: the same history, idle vault
+		corpus := sq < 0     // -2: WITNESS of defect D46 (vault deposited into while the fee is zero); -1: the same history, idle vault
 		if corpus {
 			mode = 0
 		}
